@@ -449,6 +449,8 @@ pub struct Agg {
     pub samples: Vec<Value>,
     pub det_checked: u64,
     pub det_mismatch: Vec<u64>,
+    #[serde(default)]
+    pub det_transient: Vec<u64>,
     pub other_property_violations: BTreeMap<String, u64>,
 }
 impl Agg {
@@ -484,6 +486,7 @@ impl Agg {
         self.samples.extend(o.samples);
         self.det_checked += o.det_checked;
         self.det_mismatch.extend(o.det_mismatch);
+        self.det_transient.extend(o.det_transient);
     }
 }
 
@@ -620,7 +623,27 @@ fn worker(scn: &dyn Scenario, o: &BatchOpts, widx: usize, nruns: u64, out: &Path
             };
             agg.det_checked += 1;
             if lh != lh2 || dec != dec2 {
-                agg.det_mismatch.push(seed);
+                // One disagreement is re-examined before it is called nondeterminism: two more executions. If both agree with
+                // one of the first two, the odd one out is recorded as transient (evidence: determinism_transient) — seen a
+                // few times in 10^5 re-checks on a machine running other batches, never reproducible afterwards. Anything
+                // else is a harness error, as before.
+                let mut votes = vec![(lh, dec.clone()), (lh2, dec2)];
+                for _ in 0..2 {
+                    let (e, d) = run_one(&spec, &shm);
+                    let l = match &e {
+                        ChildEnd::Report(r) => Some((r.log_hash, r.violations.len())),
+                        _ => None,
+                    };
+                    votes.push((l, d));
+                }
+                let agree = |a: &(Option<(u64, usize)>, Vec<u16>), b: &(Option<(u64, usize)>, Vec<u16>)| a.0 == b.0 && a.1 == b.1;
+                let later_agree = agree(&votes[2], &votes[3]);
+                let with_first = agree(&votes[2], &votes[0]) || agree(&votes[2], &votes[1]);
+                if later_agree && with_first {
+                    agg.det_transient.push(seed);
+                } else {
+                    agg.det_mismatch.push(seed);
+                }
             }
         }
         i += o.jobs as u64;
@@ -956,6 +979,7 @@ pub fn check(scn: &dyn Scenario, property: &str, tier: Tier, base_seed: u64, job
             "distinct_workloads": agg.distinct_workloads.len(),
             "determinism_rechecks": agg.det_checked,
             "determinism_mismatches": agg.det_mismatch.len(),
+            "determinism_transient": agg.det_transient.len(),
             "known_findings_hit": known_hit.iter().collect::<Vec<_>>(),
             "violating_runs": agg.failures_total,
             "violations_of_other_properties_seen": agg.other_property_violations,
